@@ -593,6 +593,32 @@ fn rule_types_respected(rules: &[String], urls: &[(String, String, &'static str)
         if !nh.is_empty() {
             return Some("Hosts format with CosmeticOnly produced a network rule".into());
         }
+        // the single-rule entry points (lists::parse_filter, FilterSet::add_filter) obey the same options
+        for f in FORMATS {
+            for rt in RTS {
+                let o = opts(f, rt);
+                let mut fs = FilterSet::new(true);
+                for l in a.iter() {
+                    match parse_filter(l, true, o) {
+                        Ok(ParsedFilter::Network(_)) if matches!(rt, RuleTypes::CosmeticOnly) =>
+                            return Some(format!("parse_filter({:?}, {}, CosmeticOnly) returns a network rule", l, if matches!(f, FilterFormat::Hosts) { "Hosts" } else { "Standard" })),
+                        Ok(ParsedFilter::Cosmetic(_)) if matches!(rt, RuleTypes::NetworkOnly) || matches!(f, FilterFormat::Hosts) =>
+                            return Some(format!("parse_filter({:?}) returns a cosmetic rule although the options load none", l)),
+                        _ => {}
+                    }
+                    let _ = fs.add_filter(l, o);
+                }
+                // one rule at a time or the whole list at once: the same engine
+                let e1 = Engine::from_filter_set(fs, false);
+                let mut fs2 = FilterSet::new(true);
+                fs2.add_filters(&a, o);
+                let e2 = Engine::from_filter_set(fs2, false);
+                if e1.serialize_raw().ok() != e2.serialize_raw().ok() {
+                    return Some(format!("FilterSet::add_filter line by line and FilterSet::add_filters on the whole list build different engines ({}, rule types {})",
+                        if matches!(f, FilterFormat::Hosts) { "Hosts" } else { "Standard" }, match rt { RuleTypes::All => "All", RuleTypes::NetworkOnly => "NetworkOnly", RuleTypes::CosmeticOnly => "CosmeticOnly" }));
+                }
+            }
+        }
         let en = Engine::from_rules_parametrised(a.iter(), opts(FilterFormat::Standard, RuleTypes::NetworkOnly), false, true);
         for h in QUERY_HOSTS {
             if !cosmetic_empty(&en, h) {
